@@ -760,3 +760,117 @@ pub fn proc_race(exe: &std::path::Path, d: &crate::dom::Domain, cfg: &RaceCfg, t
     let nontrivial = outs.iter().filter(|o| matches!(o.1, Out::Got(..))).count() >= 2 || outs.iter().any(|o| matches!(&o.1, Out::Err(e) if e.contains("AlreadyExists") || e.contains("IsBeingCreated")));
     (notes, nontrivial, obs, inconclusive)
 }
+
+// ---------------------------------------------------------------------------------------------
+// last user leaves while others open: the service must not vanish under somebody who obtained it
+
+pub fn execute_drop_race<S: Service + 'static>(config: &iceoryx2::config::Config, pat: Pat, openers: usize, mode: &Mode, tag: u64, residue: &(dyn Fn() -> Vec<String> + Sync)) -> ExecResult
+where
+    S: Sync,
+{
+    use std::sync::atomic::{AtomicBool, Ordering::SeqCst};
+    let name = format!("drace_{}_{}", vkit::proc_token(), tag);
+    let created = AtomicBool::new(false);
+    let creator_gone = AtomicBool::new(false);
+    let start = Barrier::new(openers + 1);
+    let finish = Barrier::new(openers + 1);
+    let notes: Mutex<Vec<(String, String)>> = Mutex::new(Vec::new());
+    let outcomes: Mutex<Vec<String>> = Mutex::new(Vec::new());
+    let mut bodies: Vec<Box<dyn FnOnce() + Send>> = Vec::new();
+    {
+        let (created, creator_gone, start, finish, notes, name) = (&created, &creator_gone, &start, &finish, &notes, name.clone());
+        bodies.push(Box::new(move || {
+            // set-up is not part of the race: no stall positions there
+            let node = sched::unhooked(|| NodeBuilder::new().config(config).create::<S>().unwrap());
+            let sname: ServiceName = name.as_str().try_into().unwrap();
+            let h = sched::unhooked(|| match call::<S>(pat, Role::Create, &node, &sname, 10) {
+                Ok((_, _, h)) => Some(h),
+                Err(e) => {
+                    notes.lock().unwrap().push(("creation_failed".into(), e));
+                    None
+                }
+            });
+            created.store(true, SeqCst);
+            start.wait();
+            // the last (so far only) user leaves while the others are opening
+            drop(h);
+            drop(node);
+            creator_gone.store(true, SeqCst);
+            finish.wait();
+        }));
+    }
+    for t in 0..openers {
+        let (created, creator_gone, start, finish, notes, outcomes, name) = (&created, &creator_gone, &start, &finish, &notes, &outcomes, name.clone());
+        bodies.push(Box::new(move || {
+            let node = sched::unhooked(|| NodeBuilder::new().config(config).create::<S>().unwrap());
+            let witness_node = sched::unhooked(|| NodeBuilder::new().config(config).create::<S>().unwrap());
+            let sname: ServiceName = name.as_str().try_into().unwrap();
+            while !created.load(SeqCst) {
+                std::thread::yield_now();
+            }
+            start.wait();
+            let mut handle = None;
+            let mut last_err = String::new();
+            for _ in 0..2000 {
+                let gone = creator_gone.load(SeqCst);
+                match call::<S>(pat, Role::Open, &node, &sname, 0) {
+                    Ok((m, usable, h)) => {
+                        // somebody who obtained the service is a user: it must exist, be complete and be openable by others
+                        if m != 10 || !usable {
+                            notes.lock().unwrap().push(("half_initialised_service".into(), format!("opener {} got setting {} usable {}", t, m, usable)));
+                        }
+                        let exists = S::does_exist(&sname, config, pat.messaging_pattern());
+                        if exists != Ok(true) {
+                            notes.lock().unwrap().push(("service_vanished_under_user".into(), format!("opener {} holds the service (open returned Ok while the last other user was leaving) but does_exist = {:?}", t, exists)));
+                        }
+                        if let Err(e) = call::<S>(pat, Role::Open, &witness_node, &sname, 0) {
+                            notes.lock().unwrap().push(("service_vanished_under_user".into(), format!("opener {} holds the service but a further node cannot open it: {}", t, e)));
+                        }
+                        handle = Some(h);
+                        break;
+                    }
+                    Err(e) => {
+                        if !(e == "DoesNotExist" || e == "IsMarkedForDestruction") {
+                            notes.lock().unwrap().push(("undocumented_race_error".into(), format!("opener {} racing the last user's drop: {}", t, e)));
+                            break;
+                        }
+                        last_err = e;
+                        if gone {
+                            break;
+                        }
+                    }
+                }
+            }
+            outcomes.lock().unwrap().push(if handle.is_some() { "Ok".to_string() } else { last_err });
+            finish.wait();
+            drop(handle);
+            drop(witness_node);
+            drop(node);
+        }));
+    }
+    let stats = sched::run_threads(mode, bodies);
+    let mut viol: Vec<(String, String, String)> = notes.into_inner().unwrap().into_iter().map(|(r, m)| (r.clone(), format!("droprace:{}", r), m)).collect();
+    let sname: ServiceName = name.as_str().try_into().unwrap();
+    let exists = S::does_exist(&sname, config, pat.messaging_pattern());
+    if exists != Ok(false) {
+        viol.push(("service_outlives_last_user".into(), "droprace:service_outlives_last_user".into(), format!("does_exist = {:?} after every handle was dropped", exists)));
+    }
+    let rest = residue();
+    if !rest.is_empty() {
+        viol.push(("residue_after_last_user".into(), "droprace:residue_after_last_user".into(), format!("{:?}", &rest[..rest.len().min(5)])));
+    }
+    let node = NodeBuilder::new().config(config).create::<S>().unwrap();
+    match recreate::<S>(pat, &node, &sname) {
+        Ok(99) => {}
+        Ok(m) => viol.push(("stale_settings_after_recreation".into(), "droprace:stale_settings_after_recreation".into(), format!("re-created service shows setting {}", m))),
+        Err(e) => viol.push(("name_not_reusable".into(), "droprace:name_not_reusable".into(), e)),
+    }
+    let outs = outcomes.into_inner().unwrap();
+    let mut obs = 0u64;
+    for o in &outs {
+        obs = vkit::mix(obs, vkit::fnv_str(o));
+    }
+    // non-trivial: the race was a race (somebody got in, or somebody was turned away by the destruction mark)
+    let nontrivial = outs.iter().any(|o| o == "Ok") || outs.iter().any(|o| o == "IsMarkedForDestruction");
+    ExecResult { stats, violations: viol, nontrivial, observed: obs, inconclusive: false }
+}
